@@ -187,6 +187,9 @@ type panicEvent struct {
 	Msg       string `json:"panic"`
 	Mutations []string `json:"mutations,omitempty"`
 	Content   S      `json:"mutated_content,omitempty"`
+	MetadataType string    `json:"metadata_type,omitempty"`
+	MetadataJSON string    `json:"metadata,omitempty"`
+	Mutation     *mutation `json:"metadata_mutation,omitempty"`
 }
 
 // ---------------------------------------------------------------- harvesting through the real core
@@ -965,6 +968,9 @@ func main() {
 	perCase := flag.Int("percase", 12, "packages per inventory handed to the converters")
 	nMut := flag.Int("mutants", 150, "mutated fixtures")
 	nSynth := flag.Int("synth", 150, "synthetic inventories")
+	metaWide := flag.Bool("metawide", false, "metadata-mutation stream: every value for every field (thorough)")
+	metaPer := flag.Int("metaper", 1, "metadata-mutation stream: harvested packages per (metadata type, extractor)")
+	metaSample := flag.Int("metasample", 80, "metadata-mutation stream: variants handed to Coq")
 	nSbom := flag.Int("sbomdocs", 40, "generated CycloneDX/SPDX documents scanned with the SBOM extractors")
 	maxPkgs := flag.Int("maxpkgs", 4000, "overall cap on harvested packages")
 	emptiedFile := flag.String("emptied", "/root/.vp/EMPTIED_FILES.txt", "list of emptied fixture files to skip")
@@ -1168,6 +1174,11 @@ func main() {
 		}
 	}
 
+	// metadata-mutation stream
+	mevs, mcases, mstats := exploreMetadata(r, h, *metaWide, *metaPer, *metaSample)
+	allPanics = append(allPanics, mevs...)
+	cases = append(cases, mcases...)
+
 	// synthetic inventories
 	var types []string
 	if *typesJSON != "" {
@@ -1308,7 +1319,7 @@ func main() {
 			"streams": streams, "purl_types": typeHist, "locations_per_package": locHist,
 			"packages_per_extractor": h.perExtractor, "panics": allPanics, "harvest_seconds": harvestSecs,
 			"purl_name_differs_from_package_name": nameDiffers, "oversize_packages_left_out": oversize, "c03_roots": c03roots,
-			"metadata_types": metaHist,
+			"metadata_types": metaHist, "metadata_mutation": mstats,
 		}
 		b, _ := json.MarshalIndent(sum, "", " ")
 		os.WriteFile(*summary, b, 0o644)
